@@ -27,7 +27,8 @@ def run_cstream(ctx, knobs_fn, on_result, sched_steps=(0, 0, 2, 4), ninputs=5, o
 
     signal.signal(signal.SIGALRM, on_alarm)
     nprog = 0
-    while not ctx.out_of_time():
+    cap = int(ctx.params.get("nprograms", 10**9))
+    while nprog < cap and not ctx.out_of_time():
         nprog += 1
         rng = random.Random((ctx.seed * 1000003 + ctx.shard * 7919 + nprog * 104729) & 0xFFFFFFFF)
         ctx.rng = rng
